@@ -323,3 +323,52 @@ func cmp3(lt, gt bool) int {
 	}
 	return 0
 }
+
+// ---------------------------------------------------------------------------
+// reflect-based map iteration (pass M rewrites v.MapKeys() and v.MapRange()
+// on reflect.Value receivers in the instrumented packages to these)
+
+// ReflectMapKeys is reflect.Value.MapKeys under the order seam.
+func ReflectMapKeys(v reflect.Value, site string) []reflect.Value {
+	keys := v.MapKeys()
+	c := curOrd()
+	if c == nil || len(keys) == 0 {
+		return keys
+	}
+	sort.SliceStable(keys, func(i, j int) bool { return lessValue(keys[i], keys[j]) < 0 })
+	seed, mode := c.noteVisit(site, len(keys))
+	if len(keys) >= 2 {
+		p := permFor(seed, mode, len(keys))
+		out := make([]reflect.Value, len(keys))
+		for i, j := range p {
+			out[i] = keys[j]
+		}
+		c.notePerm(site, p)
+		return out
+	}
+	return keys
+}
+
+// ReflectMapIter mimics *reflect.MapIter (Next / Key / Value).
+type ReflectMapIter struct {
+	m    reflect.Value
+	keys []reflect.Value
+	i    int
+}
+
+func ReflectMapRange(v reflect.Value, site string) *ReflectMapIter {
+	return &ReflectMapIter{m: v, keys: ReflectMapKeys(v, site), i: -1}
+}
+
+func (it *ReflectMapIter) Next() bool {
+	for it.i+1 < len(it.keys) {
+		it.i++
+		if it.m.MapIndex(it.keys[it.i]).IsValid() {
+			return true
+		}
+	}
+	it.i = len(it.keys)
+	return false
+}
+func (it *ReflectMapIter) Key() reflect.Value   { return it.keys[it.i] }
+func (it *ReflectMapIter) Value() reflect.Value { return it.m.MapIndex(it.keys[it.i]) }
